@@ -15,7 +15,8 @@ Open Scope iter_scope.
 (* ---------------- helpers ---------------- *)
 
 (* `for i.Offset() < offsetEnd { item }`: every item parser below consumes at least one byte or fails, so
-   offsetEnd - offset + 1 rounds are always enough; E_fuel is never produced (lemma in Proofs/DescProofs.v) *)
+   offsetEnd - offset + 1 rounds are always enough. E_fuel (99) has no counterpart in the implementation: were it
+   ever produced, the correspondence check would show it as a mismatch (Go errors are code 0). *)
 Definition E_fuel : Z := 99.
 
 Fixpoint iloop_fuel {A} (fuel : nat) (offsetEnd : Z) (item : IM A) : IM (list A) :=
